@@ -383,7 +383,7 @@ def _cfg(draw, kind):
     elif kind == "synapse":
         cfg["syn"] = {"cls": draw(st.sampled_from(B.SYNAPSES)), "q": 30.0, "tol": 1e-6, "interp": "previous"}
         cfg["shape"] = draw(st.sampled_from([[2], [2, 2]]))
-        cfg["delay"] = draw(st.integers(0, 4))
+        cfg["delay"] = draw(st.sampled_from([0, 1, 2, 3, 4, 1.5, 2.5]))
         cfg["inplace"] = draw(st.booleans())
     elif kind == "connection":
         t = draw(st.sampled_from(["dense", "direct", "lateral"]))
@@ -438,7 +438,7 @@ def path_case(draw, tier="quick"):
         elif a == "batchsz":
             v = draw(st.integers(1, 4))
         elif a == "delay":
-            v = draw(st.integers(0, 5))
+            v = draw(st.sampled_from([0, 1, 2, 3, 4, 5, 1.5, 2.5, 0.5, 2.0, 3.0, 2.25]))
         elif a in ("inplace", "inclusive"):
             v = draw(st.booleans())
         elif a == "duration":
